@@ -2,6 +2,7 @@ package core
 
 import (
 	"fmt"
+	"go/constant"
 	"go/token"
 	"go/types"
 	"os"
@@ -227,8 +228,102 @@ type phiTest struct {
 	isBool bool // the phi itself is the (possibly negated) condition
 	// nil / constant tests: the true edge means "phi != k" when neqOnTrue
 	neqOnTrue bool
-	k         *ssa.Const        // nil: test against nil
-	chain     []*ssa.BasicBlock // join block ... test block
+	k         *ssa.Const // nil: test against nil
+	// ord: an ordered comparison `phi ord k` (k an integer constant); the true edge means it holds when neqOnTrue
+	ord   token.Token
+	chain []*ssa.BasicBlock // join block ... test block
+}
+
+// opFor: the comparison operator that holds between the tested value and k on the edge with the given truth.
+func (pt *phiTest) opFor(truth bool) string {
+	holds := truth == pt.neqOnTrue
+	if pt.ord == 0 {
+		if holds {
+			return "!="
+		}
+		return "=="
+	}
+	op := pt.ord
+	if !holds {
+		switch op {
+		case token.LSS:
+			op = token.GEQ
+		case token.LEQ:
+			op = token.GTR
+		case token.GTR:
+			op = token.LEQ
+		case token.GEQ:
+			op = token.LSS
+		}
+	}
+	return op.String()
+}
+
+// rangeIndex: v is the index of a range loop over a slice (φ(-1, v) + 1): never negative.
+func rangeIndex(v ssa.Value) bool {
+	b, ok := v.(*ssa.BinOp)
+	if !ok || b.Op != token.ADD {
+		return false
+	}
+	one, ok := b.Y.(*ssa.Const)
+	if !ok || one.Value == nil || one.Value.ExactString() != "1" {
+		return false
+	}
+	phi, ok := b.X.(*ssa.Phi)
+	if !ok || len(phi.Edges) != 2 {
+		return false
+	}
+	hasInit, hasSelf := false, false
+	for _, e := range phi.Edges {
+		if c, isC := e.(*ssa.Const); isC && c.Value != nil && c.Value.ExactString() == "-1" {
+			hasInit = true
+		}
+		if e == ssa.Value(b) {
+			hasSelf = true
+		}
+	}
+	return hasInit && hasSelf
+}
+
+// ordHolds decides `v ord k` for an operand that is a constant or a range index; known=false otherwise.
+func ordHolds(v ssa.Value, ord token.Token, k *ssa.Const) (holds, known bool) {
+	if k == nil || k.Value == nil || k.Value.Kind() != constant.Int {
+		return false, false
+	}
+	if c, ok := v.(*ssa.Const); ok && c.Value != nil && c.Value.Kind() == constant.Int {
+		return constant.Compare(c.Value, ord, k.Value), true
+	}
+	if rangeIndex(v) {
+		// v ≥ 0
+		sign := constant.Sign(k.Value)
+		switch ord {
+		case token.GEQ:
+			if sign <= 0 {
+				return true, true
+			}
+		case token.GTR:
+			if sign < 0 {
+				return true, true
+			}
+		case token.LSS:
+			if sign <= 0 {
+				return false, true
+			}
+		case token.LEQ:
+			if sign < 0 {
+				return false, true
+			}
+		case token.EQL:
+			if sign < 0 {
+				return false, true
+			}
+		case token.NEQ:
+			if sign < 0 {
+				return true, true
+			}
+		}
+	}
+	return false, false
 }
 
 // Summary is the success summary of a function.
@@ -443,6 +538,33 @@ func findTest(b *ssa.BasicBlock) *phiTest {
 	if phi, isPhi := forwardLoad(cond).(*ssa.Phi); isPhi {
 		return mk(phi, &phiTest{isBool: true, neqOnTrue: !neg})
 	}
+	if bo, isB := cond.(*ssa.BinOp); isB && (bo.Op == token.LSS || bo.Op == token.LEQ || bo.Op == token.GTR || bo.Op == token.GEQ) {
+		// `i >= 0` on the merged result of an "index or -1" search
+		op := bo.Op
+		var other ssa.Value
+		var k *ssa.Const
+		if c, isC := bo.Y.(*ssa.Const); isC {
+			other, k = bo.X, c
+		} else if c, isC := bo.X.(*ssa.Const); isC {
+			other, k = bo.Y, c
+			switch op {
+			case token.LSS:
+				op = token.GTR
+			case token.LEQ:
+				op = token.GEQ
+			case token.GTR:
+				op = token.LSS
+			case token.GEQ:
+				op = token.LEQ
+			}
+		}
+		if k != nil && k.Value != nil && k.Value.Kind() == constant.Int {
+			if phi, isPhi := forwardLoad(other).(*ssa.Phi); isPhi {
+				return mk(phi, &phiTest{neqOnTrue: !neg, k: k, ord: op})
+			}
+		}
+		return nil
+	}
 	if bo, isB := cond.(*ssa.BinOp); isB && (bo.Op == token.EQL || bo.Op == token.NEQ) {
 		var other ssa.Value
 		var k *ssa.Const
@@ -478,8 +600,20 @@ func (ff *FnFacts) compatible(pt *phiTest, v ssa.Value, truth bool, facts FactSe
 		}
 		return true
 	}
+	if pt.ord != 0 {
+		want := truth == pt.neqOnTrue
+		if holds, known := ordHolds(v, pt.ord, pt.k); known {
+			return holds == want
+		}
+		return true
+	}
 	if pt.k != nil {
 		wantNeq := truth == pt.neqOnTrue
+		if holds, known := ordHolds(v, token.NEQ, pt.k); known {
+			if _, isC := v.(*ssa.Const); !isC {
+				return holds == wantNeq
+			}
+		}
 		if c, ok := v.(*ssa.Const); ok && c.Value != nil {
 			return (c.Value.ExactString() != pt.k.Value.ExactString()) == wantNeq
 		}
@@ -616,11 +750,7 @@ func (ff *FnFacts) outToward(p, s *ssa.BasicBlock, pin FactSet) FactSet {
 			case pt.isBool:
 				extra = ff.condFacts(only, truth == pt.neqOnTrue, p)
 			case pt.k != nil:
-				op := "=="
-				if truth == pt.neqOnTrue {
-					op = "!="
-				}
-				extra = []Fact{normCmp(ff.TB.Of(only), op, ff.TB.Of(pt.k))}
+				extra = []Fact{normCmp(ff.TB.Of(only), pt.opFor(truth), ff.TB.Of(pt.k))}
 			case isErrorType(only.Type()):
 				extra = ff.errFacts(only, truth != pt.neqOnTrue)
 			default:
@@ -830,11 +960,7 @@ func (ff *FnFacts) PathTestFacts(path []*ssa.BasicBlock, next *ssa.BasicBlock) [
 		}
 		return ff.condFacts(v, truth == pt.neqOnTrue, p)
 	case pt.k != nil:
-		op := "=="
-		if truth == pt.neqOnTrue {
-			op = "!="
-		}
-		return []Fact{normCmp(ff.TB.Of(v), op, ff.TB.Of(pt.k))}
+		return []Fact{normCmp(ff.TB.Of(v), pt.opFor(truth), ff.TB.Of(pt.k))}
 	case isNilConst(v):
 		return nil
 	case isErrorType(v.Type()):
@@ -877,10 +1003,7 @@ func (ff *FnFacts) dataflow() {
 							}
 							fs = []Fact{{Kind: k, A: raw}}
 						default:
-							op := "=="
-							if truth == pt.neqOnTrue {
-								op = "!="
-							}
+							op := pt.opFor(truth)
 							kt := &Term{Op: "const", Name: "nil"}
 							if pt.k != nil {
 								kt = ff.TB.Of(pt.k)
